@@ -227,6 +227,9 @@ def intended_loop(kind, x):
     return f
 
 
+PROMOTED = []
+
+
 def from_skeleton(inclusive, step, coll, names):
     """the fixed part of a from-loop: counter and bound are parked in two different registers, the test compares those two with `<` (to) or
     `<=` (through), the step (default: the integer constant 1) is added to the counter with `+=` after the body, and the two registers are
@@ -248,6 +251,12 @@ def from_skeleton(inclusive, step, coll, names):
         # both bounds are evaluated before the counter is written: the start value waits in a register of its own.
         def is_code(i, name):
             return len(w) > i and w[i][0] == "code" and jumps.base(w[i][1]) == name
+        # the start value may be promoted to the counter's kind first (`from 0 to 2 step 0.5`: `<val_start> <zero of the counter's kind> bin_op +`)
+        if is_code(0, "val_start") and is_code(1, "start_promotion") and ins_at(w, 2, "bin_op"):
+            if lit(w[2]) != "+":
+                bad.append("the start value is combined with the promotion constant by %r, expected `+`" % lit(w[2]))
+            w = [w[0]] + list(w[3:])
+            PROMOTED.append(1)
         if coll and len(w) > 10 and is_code(0, "val_start") and ins_at(w, 1, "store_fast") and is_code(2, "val_end") and ins_at(w, 3, "store_fast") \
                 and ins_at(w, 4, "load_fast") and (ins_at(w, 5, "store") or ins_at(w, 5, "store_fast")):
             if reg(w[4]) != reg(w[1]):
@@ -799,6 +808,10 @@ def generators(F, rep):
                            ("; ".join(bad) + " -- " if bad else "") + jumps.show(w), frc.span, fn=frc.path,
                            key=P + ".skeleton|%s%s" % (key, "" if wi == 0 else "#%d" % (wi + 1)))
                     nsk += 1
+    rep.ob(P + ".skeleton", "a from loop whose counter is of a wider kind than its start value starts the counter at that kind (`<val_start> <zero> bin_op +`)",
+           "ok" if PROMOTED else "violated", "" if PROMOTED else "no emitted word promotes the start value: `from 0 to 2 step 0.5, i` starts with the int 0 in a float counter",
+           frc.span, fn=frc.path, key=P + ".skeleton|from|start-promotion")
+    del PROMOTED[:]
     rep.floor(P + " generator shapes judged", n, 2 + 2 + 3 + 24)
     rep.floor(P + " from-loop skeletons judged", nsk, 8)
     return n
